@@ -32,9 +32,10 @@ def scenario(root, files):
 
 class Ctx:
     """what a file scope can see (approximation used only to bias towards valid manifests)"""
-    def __init__(self, rules, variables):
+    def __init__(self, rules, variables, inherited=()):
         self.rules = list(rules)
         self.vars = list(variables)
+        self.inherited = list(inherited)     # rules of enclosing scopes not yet redefined here
 
 
 class Gen:
@@ -51,6 +52,7 @@ class Gen:
         self.used = []           # inputs/validations already mentioned by a build statement
         self.crlf = False
         self.version_ok = False
+        self.caret_family = rng.random() < 0.06   # scenario about the scope of the $^ version gate
 
     # ----- lexical pieces -----
     def p(self, x):
@@ -195,7 +197,7 @@ class Gen:
             name = "pl%d" % self.npool
         toks = [b"pool", self.sp(), name.encode(), self.nl()]
         k = self.r.random()
-        if k < 0.85:
+        if k < 0.82:
             d = self.r.choice([b"0", b"1", b"4", b"16", b"007", b"2147483647", b"-0"])
         elif k < 0.88:
             d = self.r.choice([b"-1", b"abc", b"", b"4 ", b"+3", b"2147483648", b"99999999999999999999",
@@ -217,6 +219,9 @@ class Gen:
     def stmt_rule(self, ctx, force_name=None):
         if force_name:
             name = force_name
+        elif ctx.inherited and self.p(0.35):
+            name = self.r.choice(ctx.inherited)      # legal: shadows the parent's rule
+            ctx.inherited = [x for x in ctx.inherited if x != name]
         elif self.p(0.012) and ctx.rules:
             name = self.r.choice(ctx.rules)
         elif self.p(0.012):
@@ -314,6 +319,7 @@ class Gen:
                 q = self.known_path() if not self.p(0.1) else self.fresh_out()
                 l.append(q)
             return l
+        valids = []
         ex = some_inputs(3)
         if phony_self and self.p(0.5):
             ex.insert(self.r.randrange(len(ex) + 1), outs[0])
@@ -345,6 +351,7 @@ class Gen:
             toks += [self.sp(), b"|@"]
             for q in some_inputs(2):
                 toks += [self.sp(), self.path_text(q, ctx)]
+                valids.append(q)
         if self.p(0.1):
             toks += [self.r.choice([b" ", b"  "])]
         toks += [self.nl()]
@@ -385,6 +392,9 @@ class Gen:
                 self.sources.append(q)
             if q not in self.used:
                 self.used.append(q)
+        for q in valids:
+            if q not in self.used and self.p(0.7):
+                self.used.insert(0, q)
         return toks
 
     def stmt_default(self, ctx):
@@ -407,7 +417,7 @@ class Gen:
         if self.p(0.05):
             name = b"missing.ninja"
         else:
-            child_ctx = Ctx(ctx.rules, ctx.vars) if sub else ctx
+            child_ctx = Ctx(ctx.rules, ctx.vars, ctx.rules) if sub else ctx
             name = self.gen_file(child_ctx, depth + 1)
         shown = name.replace(b" ", b"$ ")
         if self.p(0.1) and b"/" not in name:
@@ -428,6 +438,11 @@ class Gen:
         entry = (name, toks)
         self.files.append(entry)
         nst = self.r.choice([2, 3, 4, 5, 6, 8, 10]) if depth == 0 else self.r.choice([1, 2, 3, 4, 5])
+        if self.caret_family:
+            if self.p(0.5):
+                toks += self.let_tokens("ninja_required_version", [self.r.choice([b"1.14", b"1.14", b"1.13", b"1.0"])])
+            if self.p(0.6):
+                toks += self.let_tokens(self.r.choice(["x", "y"]), [b"a$^b"])
         if depth == 0 and self.p(0.8):
             toks += self.stmt_rule(ctx)
         for _ in range(nst):
@@ -442,7 +457,7 @@ class Gen:
                 toks += self.stmt_pool(ctx)
             elif k < 0.83:
                 toks += self.stmt_default(ctx)
-            elif k < 0.92:
+            elif k < 0.92 or (self.caret_family and k < 0.97):
                 if depth < 3 and self.nfile < 6:
                     toks += self.stmt_include(ctx, depth)
                 else:
@@ -522,9 +537,54 @@ def gen_base(rng):
     return g.files
 
 
-def gen(seed, n, mut_cap=24):
-    rng = random.Random(seed)
+def gen_special():
+    """deterministic families that random generation reaches too rarely: every interesting
+    pool-depth string, every ninja_required_version string, and the scope of the $^ version
+    gate over include/subninja structures"""
     out = []
+    rule = b"rule r\n  command = c\n"
+    for d in [b"0", b"1", b"16", b"007", b"2147483647", b"2147483648", b"-0", b"-00", b"-1", b"+3", b"+0",
+              b"", b" 4", b"4 ", b"4x", b"x4", b"0x10", b"1.5", b"-", b"+", b"99999999999999999999",
+              b"-2147483648", b"-2147483649", b"$d", b"$$", b"4$ ", b"1e3", b"\t4"]:
+        text = b"d = 5\npool p\n  depth = " + d + b"\n" + rule + b"build o: r\n  pool = p\n"
+        out.append(scenario(b"build.ninja", [(b"build.ninja", text)]))
+    for v in [b"1.14", b"1.14.0", b"1.14.1.git", b"1.13", b"1.13.99", b"1.15", b"1.140", b"2", b"2.0", b"0.9",
+              b"0", b"1", b"1.", b".14", b"", b"x", b"1.x", b" 1.14", b"1. 14", b"\t1.14", b"+1.14", b"+1.+14",
+              b"-1.14", b"1.-14", b"01.014", b"1.99999999999999999999", b"99999999999999999999.0",
+              b"4294967297.14", b"1.4294967310", b"1.4294967311", b"-4294967295.99", b"1.14abc", b"1abc.99",
+              b"9223372036854775807.0", b"9223372036854775808.0", b"1.9223372036854775807",
+              b"-9223372036854775809.0", b"$v", b"1.$m"]:
+        text = b"v = 1.14\nm = 14\nninja_required_version = " + v + b"\nx = a$^b\n" + rule + \
+               b"build o: r\n  description = $x\n"
+        out.append(scenario(b"build.ninja", [(b"build.ninja", text)]))
+    decl, use = b"ninja_required_version = 1.14\n", b"x = a$^b\n"
+    low = b"ninja_required_version = 1.0\n"
+    tail = rule + b"build o: r\n  description = $x\n"
+    for kw1 in (b"include", b"subninja"):
+        for kw2 in (b"include", b"subninja"):
+            for a in (b"", decl, use, decl + use, use + decl, low + use, decl + low + use):
+                for b in (b"", use, decl + use, low + use):
+                    for r0 in (b"", decl):
+                        for r1 in (b"", use):
+                            root = r0 + kw1 + b" a.ninja\n" + r1 + kw2 + b" b.ninja\n" + r1 + tail
+                            out.append(scenario(b"build.ninja", [(b"build.ninja", root), (b"a.ninja", a),
+                                                                 (b"b.ninja", b)]))
+            # nesting: root -> a -> c, then root -> b -> c'
+            for a in (decl, b""):
+                for c in (decl, use, b""):
+                    for c2 in (use, b""):
+                        root = kw1 + b" a.ninja\n" + kw2 + b" b.ninja\n" + tail
+                        out.append(scenario(b"build.ninja", [
+                            (b"build.ninja", root), (b"a.ninja", a + b"include c.ninja\n"), (b"c.ninja", c),
+                            (b"b.ninja", b"subninja d.ninja\n"), (b"d.ninja", c2)]))
+    return out
+
+
+def gen(seed, n, mut_cap=24, special=True):
+    """n scenario lines: the deterministic special families first (when special), then random
+    bases each followed by up to mut_cap single-token mutations"""
+    rng = random.Random(seed)
+    out = gen_special() if special else []
     while len(out) < n:
         files = gen_base(rng)
         out.append(render(files))
